@@ -90,6 +90,7 @@ func suite() hlib.Suite {
 						inflight, hw := 0, 0
 						live := map[*f1testing.T]bool{}
 						shared := false
+						changed := ""
 						rs := &hlib.RunSpec{Mode: mc.mode, Quiet: true, CompletionTimeout: 2 * time.Second,
 							Opts: options.RunOptions{MaxDuration: 5 * time.Second, Concurrency: conc, MaxIterations: limit, IgnoreDropped: true}}
 						if mc.mode == "file" {
@@ -110,6 +111,9 @@ func suite() hlib.Suite {
 								}
 								live[t] = true
 								vtime.Sleep(body)
+								if t.Iteration != strconv.Itoa(id) {
+									changed = fmt.Sprintf("iteration %d saw its id become %q while it was running", id, t.Iteration)
+								}
 								delete(live, t)
 								inflight--
 							}
@@ -130,6 +134,9 @@ func suite() hlib.Suite {
 									kind = "exceeded"
 								}
 								r.Fail("C03/run-ceiling", kind+"/"+mc.mode, fmt.Sprintf("%d invocations with max-iterations %d (the trigger keeps requesting)", len(ids), limit), input)
+							}
+							if changed != "" {
+								r.Fail("C03/run-ids", "changed-while-running/"+mc.mode, changed, input)
 							}
 							sorted := append([]int(nil), ids...)
 							sort.Ints(sorted)
